@@ -5,6 +5,7 @@ domains and ticks returned by the real scales at the API boundary; H5/H6/H7
 monitors stay installed (in-situ evidence + end-point invariant of C12 after nice).
 """
 
+import math
 from datetime import datetime
 
 from oracles import ticks as T
@@ -85,6 +86,9 @@ def lin_case(ctx, S, a, b, m, tag):
         else:
             s = S.LinearScale().domain([a, b])
         _REUSE["lin"] = s
+        if m is not None and hash((a, b, m)) % 12 == 0:
+            m = float(m)  # a count given as a float with an integral value is the same count
+            ctx.path("linear.float-count")
         s.nice(m) if m is not None else s.nice()
         a2, b2 = s.domain()
         ticks = list(s.ticks(m)) if m is not None else list(s.ticks())
@@ -92,6 +96,11 @@ def lin_case(ctx, S, a, b, m, tag):
         ctx.judge("linear", VIOLATED, case, finding="raised %s: %s" % (type(e).__name__, e), key="linear:raised")
         return
     probs, full = T.judge_linear_nice(a, b, a2, b2, ticks)
+    meff = 10 if m is None else m
+    if not probs and not (math.floor(0.57 * meff) <= len(ticks) <= 1.43 * meff + 1):
+        # the step the statement speaks of is that of the ticks for the REQUESTED count: a tick list of another size (C13's
+        # bound) means the niced ends were rounded to the step of some other count
+        probs = ["ticks of the niced domain (%d) do not belong to the requested count %r: niced with the step of another count" % (len(ticks), m)]
     if probs:
         key = "linear:" + nice_key(probs[0])
         if float_extra_step(a, b, a2, b2, ticks, probs):
